@@ -91,6 +91,14 @@ def main():
                     bad += 1
             print("%-28s demo: clean=%s seeded=%s | %s" % (name, clean_demo, seeded_demo, "; ".join("%s %s %s" % x for x in res)), flush=True)
             rows.append((name, meta, clean_demo, seeded_demo, res))
+            own = next((r for r in res if r[0] == meta["property"]), None)
+            if own is not None and not allc:
+                meta["confirmed_by_me"] = dict(meta.get("confirmed_by_me") or {}, **{
+                    "how": "tools/seeded.py: patch applied to a scratch git worktree of /repo HEAD (removed afterwards); demo run on the clean worktree "
+                           "and on the patched one; ./check %s --tier %s with WPU_REPO=<worktree>%s" % (meta["property"], tier, " and VF_NO_CORPUS=1 (generated search only)" if os.environ.get("VF_NO_CORPUS") else ""),
+                    "demo_exit_clean_tree": str(clean_demo), "demo_exit_with_change": str(seeded_demo), "check_result": own[1],
+                    "first_signature": own[2].split(":")[0]})
+                json.dump(meta, open(os.path.join(sdir, "meta.json"), "w"), indent=1)
         finally:
             sh(["git", "-C", REPO, "worktree", "remove", "--force", tree])
             shutil.rmtree(tmp, ignore_errors=True)
